@@ -176,6 +176,16 @@ func genC15(r *Rng, e *Emitter, n int) {
 			}
 			e.tally("signed-zeros")
 		}
+		if g <= 1000 && r.chance(1, 6) {
+			// the same figure in small units (an exact power of two): thousandths and less
+			sc := math.Ldexp(1, -8-r.Intn(23))
+			for _, p := range []geom.Coord{a, b, c, d} {
+				for k := 0; k < dim && k < len(p); k++ {
+					p[k] *= sc
+				}
+			}
+			e.tally("small-units")
+		}
 		e.tally(fmt.Sprintf("grid=%d", g))
 		defer0()
 		switch kind {
